@@ -72,6 +72,10 @@ static void warm()
 	T_C = mpt::mpt_type_traits('c'); T_Y = mpt::mpt_type_traits('y'); T_I = mpt::mpt_type_traits('i');
 	mpt::buffer *b = mpt::_mpt_buffer_alloc(1, 0); if (b) b->unref();   // allocation granularity singleton
 }
+// the ledger table is 4 MB: clearing it for every system would dominate the run; systems never overlap in time,
+// so the live count at construction is the baseline and the table is cleared only now and then
+static size_t g_lbase = 0;
+static void ledger_base() { static unsigned n = 0; if ((n++ & 2047) == 0) ledger_reset(); g_lbase = ledger_live(); }
 static int trid(const mpt::type_traits *t) { return !t ? 0 : (t == T_C ? 1 : (t == T_Y ? 2 : (t == T_I ? 3 : 9))); }
 static const char *trname(const mpt::type_traits *t) { static const char *n[] = { "raw", "'c'", "'y'", "'i'" }; int i = trid(t); return i < 4 ? n[i] : "other"; }
 static const mpt::type_traits *trsel(int i) { return i == 1 ? T_C : (i == 2 ? T_Y : (i == 3 ? T_I : 0)); }
@@ -179,7 +183,7 @@ static bool screened(Run &r, char fam, const std::string &key, const std::string
 	if (!wr_all(z_req, m.data(), m.size()) || !rd_all(z_resp, &n, 4)) { z_owner = 0; return true; }
 	res.resize(n);
 	if (n && !rd_all(z_resp, &res[0], n)) { z_owner = 0; return true; }
-	r.beat();
+	r.beat(); r.count("screened-in-child");
 	if (r.expired()) g_expired = true;
 	if (res == "OK") { g_clean.insert(key); return true; }
 	if (!res.empty() && res[0] == '\x01') {
@@ -264,7 +268,7 @@ struct RawSys {
 		warm(); build_tables(); if (!g_child && !r.replaying) zygote_start();
 		memset(h, 0, sizeof h);
 		for (int i = 0; i < 3; ++i) m[i].tr = 0;
-		ledger_reset(); asan_error();
+		ledger_base(); asan_error();
 		if (init) {
 			uint64_t c = init - 1; int flags = c % 4, tr = (c / 4) % 3, fill = (c / 12) % 2;
 			size_t used = fill ? 63 : 3;
@@ -357,7 +361,7 @@ struct RawSys {
 			if (i != w && h[i].b && h[i].b->_content_traits != m[i].tr) { V(base + grp, desc + fmt(": %s content type changed", hname(i))); return false; }
 		}
 		if (asan_error()) { V(base + "memory-error", desc + ": reading a handle back touches freed memory"); dead = true; return false; }
-		int g[3]; mpt::buffer *bs[3]; size_t n = groups(g, bs), live = ledger_live();
+		int g[3]; mpt::buffer *bs[3]; size_t n = groups(g, bs), live = ledger_live() - g_lbase;
 		if (live != n) {
 			V(base + (live > n ? "leak" : "released-while-referenced"), desc + fmt(": %zu buffers allocated, %zu reachable from the handles", live, n));
 			if (live < n) dead = true;
